@@ -4,12 +4,12 @@ from common import *
 import cachelib
 
 PID = 'C15'
-TARGETS = ['Properties/C15.vo', 'Bridge/CacheBridge.vo']
-KERNELS = ['G14_cache']
+TARGETS = ['Properties/C15.vo', 'Bridge/CacheBridge.vo', 'Bridge/CodegenBridge.vo']
+KERNELS = ['G14_cache', 'G11_codegen']
 PROP_FILE = 'Properties/C15.v'
 ASSUMPTIONS = ["partial: sha1 collision freedom; the interpreter's rule for using a bytecode file (equal source stamp); atomicity of os.replace; "
                "sys.modules reload semantics are not in the model (covered only by the implementation runs of this check)"]
-VARS = ['A', 'A4', 'B', 'C', 'Anv', 'Anp', 'Aoff', 'Ana', 'Ale', 'Anale']
+VARS = ['A', 'A4', 'B', 'C', 'Anv', 'Anp', 'Aoff', 'Ana', 'Ale', 'Anale', 'Dal', 'Dfx']
 VID = {v: i for i, v in enumerate(VARS)}
 
 HEADER_COQ = """From Coq Require Import ZArith List Bool.
@@ -47,7 +47,7 @@ def run_history(args):
 
 def run(tier, seed, rng):
     hists = []
-    base = ['A', 'A4', 'C', 'Anv', 'Aoff', 'Ale', 'Ana', 'Anale']
+    base = ['A', 'A4', 'C', 'Anv', 'Aoff', 'Ale', 'Ana', 'Anale', 'Dal', 'Dfx']
     # exhaustive: every sequence of two definitions, in one process and across two processes, bytecode on/off
     for a, b in itertools.product(base, repeat=2):
         for bc in (False, True):
